@@ -19,7 +19,7 @@ NAMES = {
     'neither': dict(name='zip', helper=False, field=False),
     'nullfield': dict(name='nul', helper=False, field=True, value=None),     # the field exists, its value is null
 }
-FORMS = ['bare', 'args', 'block', 'subexpr', './', 'this.', '[]', 'this/', 'hash', 'argshash', 'blockhash', 'subhash']
+FORMS = ['bare', 'args', 'block', 'subexpr', './', 'this.', '[]', 'this/', 'hash', 'argshash', 'blockhash', 'subhash', 'chain']
 
 def wrap(pos, t):
     if pos == 'top':
@@ -60,6 +60,8 @@ def gen_cases(rng, tier, scale):
             t = '{{#%s k=1}}B{{/%s}}' % (n, n)
         elif form == 'subhash':
             t = '{{id (%s k=1)}}' % n
+        elif form == 'chain':
+            t = '{{#if zzz}}A{{else %s 1}}B{{/if}}' % n          # an else-chain link is a block call
         elif form == './':
             t = '{{./%s}}' % n
         elif form == 'this.':
@@ -100,7 +102,7 @@ def expect(c):
     """who handles the tag, per the property text -> predicate on the result"""
     info, form, n = c['info'], c['form'], c['nm']
     noparam = form in ('hash', 'blockhash', 'subhash')      # a call (it has hash arguments) without positional ones
-    form = {'hash': 'args', 'argshash': 'args', 'blockhash': 'block', 'subhash': 'subexpr'}.get(form, form)
+    form = {'hash': 'args', 'argshash': 'args', 'blockhash': 'block', 'subhash': 'subexpr', 'chain': 'block'}.get(form, form)
     explicit = form in ('./', 'this.', '[]', 'this/')
     FV = 'FIELD' if info.get('value', 'FIELD') is not None else ''
     if explicit:
